@@ -101,7 +101,8 @@ def gen_calls(rng, thorough):
             # the one pair of rules whose basic padding does not commute: 'fill' on both axes with different values
             # (the corner cells on open edges then tell which axis was padded last)
             c["args"]["boundary"] = S("fill")
-            c["args"]["fill_value"] = M([["a1", 2], ["a2", 7]] + ([["a3", -3]] if any(a["name"] == "a3" for a in c["grid"]["axes"]) else []))
+            f_ = c["args"].get("fill_den", 1)      # records in half units hold twice the (integer) real fill values
+            c["args"]["fill_value"] = M([["a1", 2 * f_], ["a2", 7 * f_]] + ([["a3", -3 * f_]] if any(a["name"] == "a3" for a in c["grid"]["axes"]) else []))
         add("c05", c)
     k = 0
     while k < (300 if thorough else 50):
